@@ -11,20 +11,20 @@ class C10(Spec):
         "C10.multi_op_refines_partial",
         "C10J.join_single_op_refines_partial", "C10J.join_single_op_refines_full_false",
         "C10J.join_batch_refines_full_false",
-        "C10.multi_op_refines_full_false_a", "C10.multi_op_refines_full_false_b", "C10.multi_op_refines_full_false_c",
+        "C10.multi_op_refines_full_false_a", "C10.multi_op_refines_full_false_b", "C10.old_del_leaves_stale_index",
     )
     partial = ("C10.multi_op_refines_partial", "C10J.join_single_op_refines_partial")
-    refuted = ("C10.multi_op_refines_full_false_a", "C10.multi_op_refines_full_false_b", "C10.multi_op_refines_full_false_c",
+    refuted = ("C10.multi_op_refines_full_false_a", "C10.multi_op_refines_full_false_b",
                "C10J.join_single_op_refines_full_false", "C10J.join_batch_refines_full_false")
     level_text = ("Lean theorems about a model of the table row cache (rows / rowmap with the in-place mutations of the Go code), "
                   "Save (saveRow, addRow, delRow, updateRow, getModify, DelDupKey) and Query.ListIndex over the ordered store: if "
                   "each primary key is touched at most once between saves the table answers exactly like a map (Add fails iff "
                   "present, Update/Del iff absent) and Save brings the db to the encoding of the map - data records and every "
                   "index, no stale and no missing entry - and keeps it well shaped; the same holds for several operations per key before "
-                  "one save as long as, for a key stored at the last save, nothing follows a buffered Del and no Del follows a "
-                  "buffered Update/Replace (GoodRun, a condition on the sequence only; simulation invariant over the row cache); on such a db ListIndex(index, value) returns "
+                  "one save as long as, for a key stored at the last save, nothing follows a buffered Del (Update/Replace then Del is covered since repo fix "
+                  "24b2bb6; GoodRun, a condition on the sequence only; simulation invariant over the row cache); on such a db ListIndex(index, value) returns "
                   "exactly the present rows with that value. The full statement (several operations per key before one save) is "
-                  "refuted on three concrete witnesses (Del;Add / Del;Replace / Update;Del) that are replayed on the real code "
+                  "refuted on two concrete witnesses (Del;Add / Del;Replace; the former Update;Del defect is a regression witness about the old Del) that are replayed on the real code "
                   "(corpus/C10). The model is tied to common/db/table over goleveldb and memdb by an exact differential run "
                   "(return values, the kv list returned by Save in order, GetData, ListIndex with paging/direction, raw scan) over "
                   "generated sequences with 1..many operations per key between saves; the property predicates are evaluated on "
